@@ -1,2 +1,85 @@
+"""C11, AXI-Lite part: AXILiteTimeout inside AXILiteInterconnectShared."""
+from migen import *
+from vf.harness import H
+from vf.runner import Job
+from vf.axil import hs
+from vf.props import c08
+from vf.props.c06 import MAPS, any_
+
+RESP_SLVERR = 2
+FUNCS = ["litex.soc.interconnect.axi.axi_lite.AXILiteTimeout", "litex.soc.interconnect.axi.axi_lite.AXILiteInterconnectShared",
+         "litex.soc.interconnect.axi.axi_lite.AXILiteArbiter", "litex.soc.interconnect.axi.axi_lite.AXILiteDecoder", "litex.gen.genlib.misc.WaitTimer"]
+
+
+class AxilTimeoutIC(c08.AxilIC):
+    def __init__(self, M, S, mapname, cycles):
+        assert S <= 2
+        c08.AxilIC.__init__(self, "shared", M, S, MAPS[mapname], timeout=cycles)
+        ms, ss = self.ms, self.ss
+        to = self.dut.timeout
+        gw = self.dut.arbiter.rr_write.grant
+        gr = self.dut.arbiter.rr_read.grant
+        dmax = (1 << len(ms[0].r.data)) - 1
+
+        def selw(f):
+            return Array([f(m) for m in ms])[gw]
+
+        def selr(f):
+            return Array([f(m) for m in ms])[gr]
+        wwait = selw(lambda m: (m.aw.valid & ~m.aw.ready) | (m.w.valid & ~m.w.ready))
+        rwait = selr(lambda m: m.ar.valid & ~m.ar.ready)
+        wc = self.reg(4, "w_wait_cnt"); rc = self.reg(4, "r_wait_cnt")
+        self.sync += [If(wwait, If(wc != 15, wc.eq(wc + 1))).Else(wc.eq(0)), If(rwait, If(rc != 15, rc.eq(rc + 1))).Else(rc.eq(0))]
+        b1 = Signal(name_override="bad_request_phase_bounded")
+        self.comb += b1.eq((wc > cycles + 1) | (rc > cycles + 1))
+        # error pulse only at expiry
+        b2 = Signal(name_override="bad_error_only_at_expiry")
+        self.comb += b2.eq(to.error & ~(((wc == cycles) & wwait) | ((rc == cycles) & rwait)))
+        # synthesised responses: not produced by a slave => SLVERR (+ all-ones data); produced by a slave => passed unchanged (C08 monitors)
+        b3 = 0
+        for m in ms:
+            b3 = b3 | (hs(m.b) & ~any_([hs(s.b) for s in ss]) & (m.b.resp != RESP_SLVERR))
+            b3 = b3 | (hs(m.r) & ~any_([hs(s.r) for s in ss]) & ((m.r.resp != RESP_SLVERR) | (m.r.data != dmax)))
+        sg = Signal(name_override="bad_synth_response_is_slverr")
+        self.comb += sg.eq(b3)
+        # response phase: an accepted request is answered (by the slave or by the time-out) within cycles+4 cycles
+        ob = selw(lambda m: 1)
+        nb = Array([e.n["b"] for e in self.menv])[gw]; naw = Array([e.n["aw"] for e in self.menv])[gw]; nw = Array([e.n["w"] for e in self.menv])[gw]
+        nr = Array([e.n["r"] for e in self.menv])[gr]; nar = Array([e.n["ar"] for e in self.menv])[gr]
+        bwait = (nb < naw) & (nb < nw) & ~selw(lambda m: m.b.valid)
+        rwait2 = (nr < nar) & ~selr(lambda m: m.r.valid)
+        bc = self.reg(4, "b_wait_cnt"); rc2 = self.reg(4, "rr_wait_cnt")
+        self.sync += [If(bwait, If(bc != 15, bc.eq(bc + 1))).Else(bc.eq(0)), If(rwait2, If(rc2 != 15, rc2.eq(rc2 + 1))).Else(rc2.eq(0))]
+        b4 = Signal(name_override="bad_response_phase_bounded")
+        self.comb += b4.eq((bc > cycles + 4) | (rc2 > cycles + 4))
+        # make the C08 'comes from a slave' obligations time-out aware: replace them
+        for k in ("b_comes_from_a_slave", "r_comes_from_a_slave_unchanged", "b_from_slave_of_its_aw", "r_from_slave_of_its_ar", "no_loss_no_duplication",
+                  "served_within_3_cycles_when_quiet", "aw_routed_by_address", "ar_routed_by_address", "w_reaches_a_slave_unchanged", "w_follows_its_aw",
+                  "driven_valid_never_withdrawn", "no_response_before_request"):
+            self.bads.pop(k, None)
+        self.bads.update(dict(request_phase_bounded=b1, error_only_at_expiry=b2, synthesised_response_is_slverr=sg, response_phase_bounded=b4))
+        fired = self.reg(1, "fired")
+        self.sync += If(to.error, fired.eq(1))
+        okafter = self.reg(1, "ok_after")
+        self.sync += If(fired & any_([hs(s.b) | hs(s.r) for s in ss]), okafter.eq(1))
+        gotslverr = self.reg(1, "got_slverr")
+        self.sync += If(any_([hs(m.b) & (m.b.resp == RESP_SLVERR) & ~any_([hs(s.b) for s in ss]) for m in ms]), gotslverr.eq(1))
+        self.w_to = Signal(name_override="w_timeout_slverr_then_real_answer")
+        self.comb += self.w_to.eq(fired & gotslverr & okafter)
+        self.showl += [to.error, wc, rc]
+        # tags: with S<=2 slave resp tags (0,1) never collide with SLVERR
+
+
+def build(M, S, mapname, cycles, K):
+    top = AxilTimeoutIC(M, S, mapname, cycles)
+    return H("axil_timeout%d_%dx%d_%s" % (cycles, M, S, mapname), top, top.free, rigid=[top.mi, top.N], assume=top.assume, bad=top.bads,
+             witness=dict(timeout_slverr_then_real_answer=top.w_to), K=K, funcs=FUNCS, cfg=dict(bus="axi-lite", masters=M, slaves=S, map=mapname, timeout=cycles),
+             show=top.showl, vcycles=30)
+
+
 def jobs(tier):
-    return []
+    extra = 12 if tier == "thorough" else 9
+    cfgs = [(1, 2, "hole", 2), (2, 2, "gapped", 3)]
+    if tier == "thorough":
+        cfgs += [(2, 2, "hole", 1), (1, 2, "adjacent", 5), (2, 1, "hole", 2)]
+    return [Job("axil_timeout%d_%dx%d_%s" % (c, m, s, mp), build, dict(M=m, S=s, mapname=mp, cycles=c, K=c + extra), cost=10 * m, timeout_s=3000) for (m, s, mp, c) in cfgs]
